@@ -175,7 +175,16 @@ impl RegVer {
     if let Some(r) = &f.raw {
       return r.clone();
     }
-    crate::world::render(ext_of_path(&f.path), &f.items, &crate::world::Broken::No)
+    // the older manifest format can only describe the older pragma
+    let items: Vec<Item> = if self.mg == MgKind::V1 {
+      f.items.iter().map(|i| match &i.form {
+        Form::TsTypes(t) => Item { form: Form::DenoTypes(t.clone()), text: i.text.clone() },
+        _ => i.clone(),
+      }).collect()
+    } else {
+      f.items.clone()
+    };
+    crate::world::render(ext_of_path(&f.path), &items, &crate::world::Broken::No)
   }
 }
 
@@ -206,8 +215,13 @@ pub fn analyze(url: &str, bytes: &[u8]) -> Option<serde_json::Value> {
 }
 
 /// the older `moduleGraph1` rendering of one module's information: `typesSpecifier` is replaced
-/// by the leading comment it came from (`// @ts-types="..."` at column 0, as `render` emits it)
+/// by the leading comment it came from (`// @deno-types="..."`, or without quotes, at column 0, as
+/// `render` emits it)
 pub fn to_module_graph_1(v2: &serde_json::Value) -> serde_json::Value {
+  to_module_graph_1_with(v2, false)
+}
+
+pub fn to_module_graph_1_with(v2: &serde_json::Value, bare: bool) -> serde_json::Value {
   let mut v = v2.clone();
   if let Some(deps) = v.get_mut("dependencies").and_then(|d| d.as_array_mut()) {
     for d in deps {
@@ -216,7 +230,7 @@ pub fn to_module_graph_1(v2: &serde_json::Value) -> serde_json::Value {
         let text = ts["text"].as_str().unwrap().to_string();
         // range = [[line, char], [line, char]]
         let line = ts["range"][0][0].as_u64().unwrap();
-        let comment_text = format!(" @ts-types=\"{}\"", text);
+        let comment_text = if bare { format!(" @deno-types={}", text) } else { format!(" @deno-types=\"{}\"", text) };
         let end = 2 + comment_text.len() as u64;
         o.insert(
           "leadingComments".into(),
@@ -297,7 +311,7 @@ impl RegWorld {
       }
       if v.mg != MgKind::None {
         if let Some(info) = analyze(&file_url(&p.name, &v.version, &f.path), &bytes) {
-          mg.insert(f.path.clone(), if v.mg == MgKind::V1 { to_module_graph_1(&info) } else { info });
+          mg.insert(f.path.clone(), if v.mg == MgKind::V1 { to_module_graph_1_with(&info, f.items.iter().any(|i| matches!(i.form, Form::DenoTypesBare(_)))) } else { info });
         }
       }
     }
